@@ -1294,3 +1294,24 @@ def _gud_real_check(c):
 
 
 gud_real = make(_gud_real_gen, _gud_real_check, 'guderley.gud_real', quick=0, deep=1, deep_only=True)
+
+
+def _rmtv_xis_gen(rng, deep):
+    return dict(params=dict(xis=rng.choice([0.8, rng.uniform(0.6, 0.9)])))
+
+
+def _rmtv_xis_check(c):
+    """'xis': 'dimensionless position of the shock front' — the discontinuity of the returned fields should
+    sit at xi = xis, i.e. r = rf xis / xif"""
+    p = c['params']
+    d, alpha, zeta, tm = rmtv_consts(p)
+    rs = rmtv_shock_position(p)
+    want = d['rf'] * d['xis'] / d['xif']
+    if relerr(rs, want) > 1e-4:
+        return dict(site='Rmtv:xis-ignored',
+                    detail='Rmtv(xis=%r): the returned density jumps at r=%r (xi=%r), not at rf*xis/xif=%r'
+                           % (d['xis'], float(rs), float(rs * d['xif'] / d['rf']), want))
+    return None
+
+
+rmtv_xis = make(_rmtv_xis_gen, _rmtv_xis_check, 'guderley.rmtv_xis', quick=1, deep=3)
